@@ -672,6 +672,16 @@ def cut_and_repair(ctx, camp, w, output, desc):
     cutlog = [(a, b) for a, b, _ in w.log]
     sigma1 = w.sigma()
     ctx.count("cut_exception", "BaseException" if hard else "Exception")
+    # a "writer" call that ran in the cut run although the dependent source it rewrites was up to date changed a source behind
+    # the run's back: outside the properties' assumptions (same rule as in observe_run)
+    if w.writer_of:
+        utd0, _ = w.up_to_date(sigma0, None)
+        nos = {m["store"]: i for i, m in enumerate(w.meta) if m["store"] is not None}
+        ran = {b for a, b in cutlog if a == "call"}
+        for i, sid in w.writer_of.items():
+            if i in ran and utd0.get(nos[sid], False):
+                w.tainted = True
+                ctx.count("writer_ran_on_fresh_source", 1)
     if res[0] == "hang":
         camp.add("C08", "cut-run-hangs", "the run was cut at operation %d by a raised BaseException subclass and uberjob.run did not return within %d s"
                  % (k, HANG_TIMEOUT), {"meta": w.meta, "sigma_before": sigma0, "cut_at": k, "of": total, "log": cutlog[:200], "desc": desc})
